@@ -328,12 +328,24 @@ pub fn pretty(ts: TokenStream) -> Result<String, String> {
 pub fn def_digests(ts: TokenStream) -> Result<Vec<(String, String)>, String> {
     let file = syn::parse2::<syn::File>(ts).map_err(|e| e.to_string())?;
     let mut out = Vec::new();
+    // the impl blocks of a type belong to its definition: (self type, tokens), sorted per type
+    let mut impls: std::collections::BTreeMap<String, Vec<String>> = Default::default();
     for it in &file.items {
-        let (name, toks) = match it {
+        if let syn::Item::Impl(i) = it {
+            impls.entry(norm_ty(&i.self_ty)).or_default().push(norm_tokens(&i.to_token_stream()));
+        }
+    }
+    for it in &file.items {
+        let (name, mut toks) = match it {
             syn::Item::Struct(s) => (s.ident.to_string(), norm_tokens(&s.to_token_stream())),
             syn::Item::Enum(e) => (e.ident.to_string(), norm_tokens(&e.to_token_stream())),
             _ => continue,
         };
+        if let Some(list) = impls.get(&name) {
+            let mut list = list.clone();
+            list.sort();
+            toks.push_str(&list.join("\n"));
+        }
         out.push((name, crate::doc::fnv(&toks)));
     }
     out.sort();
